@@ -22,7 +22,7 @@ func init() { fw.Register(prop{}) }
 func (prop) ID() string { return "C08" }
 func (prop) Cases(tier string) int {
 	if tier == "thorough" {
-		return 10000
+		return 5000
 	}
 	return 800
 }
